@@ -397,7 +397,9 @@ def build(term, rng=None) -> Built:
         return Built(term, py, f'(TScalar {coq})')
     if k == 'std':
         import datetime, decimal, fractions, pathlib, os
-        py = {'enum_tuple': _ETuple, 'decimal': decimal.Decimal, 'fraction': fractions.Fraction, 'datetime': datetime.datetime, 'date': datetime.date,
+        from pane.types import Range, ValueOrList
+        py = {'enum_tuple': _ETuple, 'vol_int': ValueOrList[int], 'vol_tuple': ValueOrList[t.Tuple[int, int]], 'vol_list': ValueOrList[t.List[int]],
+              'vol_range': ValueOrList[Range[int]], 'range_int': Range[int], 'decimal': decimal.Decimal, 'fraction': fractions.Fraction, 'datetime': datetime.datetime, 'date': datetime.date,
               'time': datetime.time, 'path': pathlib.PurePosixPath, 'pathlike': os.PathLike, 'pattern': re.Pattern,
               'pattern_str': t.Pattern[str], 'pattern_bytes': re.Pattern[bytes]}[term[1]]
         return Built(term, py, '%NOCOQ%')     # outside the Coq model: monitored on pane only
